@@ -41,6 +41,7 @@ type Op struct {
 	V   V      `json:"v"`
 	S   string `json:"s"`
 	Cap int    `json:"cap"`
+	Cs  []string `json:"cs"`
 }
 
 type Res struct {
@@ -71,9 +72,10 @@ type Line struct {
 	Maps   map[string][][]V  `json:"maps,omitempty"`
 	Fields map[string]V      `json:"fields,omitempty"`
 	Src    string            `json:"src,omitempty"`
+	NoPost bool              `json:"nopost,omitempty"`
 }
 
-var vars = []string{"a", "b", "c", "m", "n", "ta", "st"}
+var vars = []string{"a", "b", "c", "m", "n", "ta", "st", "s", "t", "tm"}
 var sliceVars = []string{"a", "b", "c", "ta"}
 var nilV = V{T: "nil"}
 
@@ -133,6 +135,14 @@ func src(o Op) string {
 		return "wr(" + o.X + ")"
 	case "mapnew":
 		return o.X + " = {}"
+	case "tmapnew":
+		return o.X + " = make(map[string]int64)"
+	case "strlit":
+		t := ""
+		for _, c := range o.Cs {
+			t += c
+		}
+		return o.X + " = " + strconv.Quote(t)
 	case "mapdel":
 		return "delete(" + o.X + ", " + lit(o.I) + ")"
 	case "structnew":
@@ -229,6 +239,9 @@ func (w *world) observe(l *Line) {
 				}
 			case reflect.Map:
 				p.T = "map"
+				if rv.Type().Elem().Kind() == reflect.Int64 {
+					p.T = "tmap"
+				}
 				p.Len = rv.Len()
 				var pairs [][]V
 				for _, k := range rv.MapKeys() {
@@ -243,6 +256,13 @@ func (w *world) observe(l *Line) {
 				p.T = "struct"
 				l.Fields["A"] = proj(rv.FieldByName("A").Interface())
 				l.Fields["B"] = proj(rv.FieldByName("B").Interface())
+			case reflect.String:
+				p.T = "str"
+				str := rv.String()
+				p.Len = len(str)
+				for i := 0; i < len(str); i++ {
+					p.Elems = append(p.Elems, strV(str[i:i+1]))
+				}
 			case reflect.Interface, reflect.Ptr:
 				p.T = "nil"
 			default:
@@ -251,7 +271,7 @@ func (w *world) observe(l *Line) {
 		}
 		l.Post[n] = p
 	}
-	for _, n := range []string{"m", "n"} {
+	for _, n := range []string{"m", "n", "tm"} {
 		if _, ok := l.Maps[n]; !ok {
 			l.Maps[n] = [][]V{}
 		}
@@ -278,6 +298,9 @@ func (w *world) observe(l *Line) {
 }
 
 func (w *world) do(o Op) Line {
+	if o.Cs == nil {
+		o.Cs = []string{}
+	}
 	s := src(o)
 	l := Line{Ev: "op", Src: s}
 	var res interface{}
@@ -338,6 +361,60 @@ func opPool(rng *rand.Rand, w *world) Op {
 		return Op{Op: "lit3", X: x}
 	}
 	y = have[rng.Intn(len(have))]
+	isStr := func(n string) bool { rv := w.get(n); return rv.IsValid() && rv.Kind() == reflect.String }
+	if rng.Intn(5) == 0 { // strings and typed maps
+		lits := [][]string{{"a", "b", "c"}, {}, {"x"}, {"a", "b"}}
+		if !isStr("s") || rng.Intn(12) == 0 {
+			return Op{Op: "strlit", X: "s", Cs: lits[rng.Intn(len(lits))]}
+		}
+		sx := "s"
+		if isStr("t") && rng.Intn(3) == 0 {
+			sx = "t"
+		}
+		sidx := func() V {
+			n := len(w.get(sx).String())
+			c := []V{intV(-1), intV(0), intV(1), intV(int64(n - 1)), intV(int64(n)), intV(int64(n + 1)), strV("x"), nilV, intV(2)}
+			return c[rng.Intn(len(c))]
+		}
+		svals := []V{strV("x"), strV("z"), strV("k"), intV(7), nilV, strV("s")}
+		switch rng.Intn(14) {
+		case 0, 1:
+			return Op{Op: "read", X: sx, I: sidx()}
+		case 2, 3:
+			return Op{Op: "write", X: sx, I: sidx(), V: svals[rng.Intn(len(svals))]}
+		case 4:
+			return Op{Op: "append", X: sx, V: svals[rng.Intn(len(svals))]}
+		case 5, 6:
+			return Op{Op: "slice2", X: []string{"s", "t"}[rng.Intn(2)], Y: sx, I: sidx(), J: sidx()}
+		case 7:
+			if rng.Intn(3) == 0 {
+				return Op{Op: "slice3", X: "t", Y: sx, I: sidx(), J: sidx(), K: sidx()}
+			}
+			return Op{Op: "alias", X: "t", Y: "s"}
+		case 8:
+			return Op{Op: "len", X: sx}
+		case 9:
+			if rng.Intn(2) == 0 {
+				return Op{Op: "in", X: sx, V: strV("x")}
+			}
+			return Op{Op: "callwrite", X: sx}
+		default:
+			if !isMap("tm") || rng.Intn(10) == 0 {
+				return Op{Op: "tmapnew", X: "tm"}
+			}
+			keys := []V{strV("k"), strV("s"), strV("x"), {T: "listlit"}, {T: "listelem"}, intV(1), nilV}
+			tv := []V{intV(5), intV(0), {T: "flt", S: "1.9", I: 1}, strV("s"), nilV}
+			switch rng.Intn(5) {
+			case 0:
+				return Op{Op: "mapget", X: "tm", I: keys[rng.Intn(len(keys))]}
+			case 1:
+				return Op{Op: "mapdel", X: "tm", I: keys[rng.Intn(len(keys))]}
+			case 2:
+				return Op{Op: "len", X: "tm"}
+			}
+			return Op{Op: "mapset", X: "tm", I: keys[rng.Intn(len(keys))], V: tv[rng.Intn(len(tv))]}
+		}
+	}
 	k := rng.Intn(26)
 	if k >= 4 && k <= 18 && k != 12 && k != 13 && k != 14 && k != 15 {
 		x = have[rng.Intn(len(have))]
@@ -442,7 +519,8 @@ func main() {
 				enc.Encode(w.do(opPool(rng, w)))
 			}
 		}
-	case "ops":
+	case "ops", "opslast":
+		lastOnly := os.Args[1] == "opslast"
 		in, err := os.Open(os.Args[2])
 		if err != nil {
 			fmt.Fprintln(os.Stderr, err)
@@ -463,8 +541,13 @@ func main() {
 			}
 			enc.Encode(Line{Ev: "reset", Share: []Share{}})
 			w := newWorld()
-			for _, o := range ops {
-				enc.Encode(w.do(o))
+			for i, o := range ops {
+				l := w.do(o)
+				if lastOnly && i < len(ops)-1 {
+					// every proper prefix of a transition-cover history is a history of its own: only the last step carries the projection
+					l = Line{Ev: "op", O: l.O, Res: l.Res, Share: []Share{}, Src: l.Src, NoPost: true}
+				}
+				enc.Encode(l)
 			}
 		}
 	}
